@@ -152,6 +152,12 @@ class Emission:
                     return None
                 last = v[1].split('::')[-1]
                 return base + ((('keys',),) if last == 'keys' else (('values',),) if last == 'values' else ())
+            if v[0] == 'pure' and v[1].split('::')[-1] in ('map', 'copied', 'cloned', 'by_ref', 'peekable', 'fuse') and v[2]:
+                # an adaptor that hands every element on as it is (copied/cloned) or through a projection closure that only views the element as text
+                if v[1].split('::')[-1] == 'map' and not (len(v[2]) == 2 and self.transparent_closure(st, v[2][1])):
+                    return None
+                v = v[2][0]
+                continue
             if v[0] in ('ref', 'cref'):
                 r = self.role_of(st, v)
                 if r is not None:
@@ -163,6 +169,31 @@ class Emission:
                 continue
             break
         return self.role_of(st, v)
+
+    def transparent_closure(self, st, clos):
+        """|x| x.as_str() / x.as_ref() / &**x / x: the result designates the element itself"""
+        probe = ('ref', ('T', ('PROBE', 0), ('e', 'probe', 0)))
+        try:
+            outs = self.e.call_closure(st.copy(), clos, [probe])
+        except Exception:
+            return False
+        if len(outs) != 1:
+            return False
+        v = outs[0][1]
+        for _ in range(10):
+            if v == probe or v == ('slice', probe[1]):
+                return True
+            if v[0] in ('ref', 'cref') and isinstance(v[1], tuple):
+                if v[0] == 'ref' and v[1] == probe[1]:
+                    return True
+                v = v[1]
+            elif v[0] == 'pure' and v[1].split('::')[-1] in ('deref', 'as_str', 'as_ref', 'borrow', 'as_deref', 'clone') and len(v[2]) == 1:
+                v = v[2][0]
+            elif v[0] == 'slice' and v[1] == probe[1]:
+                return True
+            else:
+                return False
+        return False
 
     def role_name(self, path):
         """turn a structural path (field indices, some, elem) into a type-based role string"""
